@@ -101,6 +101,27 @@ def build(u):
                 make_r_sub("R-collect", r"args\.into_iter\(\)\.collect\(\)", "args"), make_r_sub("R-collect", r"vec!\[Default::default\(\); self\.args\.len\(\)\]", "vvec_default_mods(self.args.len())"), r_mutself],
          spec="ensures fc_wf(r), r.args@ == args@,")
     u.emit("}\n")
+    # custom SQL constructors (C11): the fragment is ALWAYS a CustomWithExpr node carrying the template and every value given
+    # (so that the template is tokenised and a doubled mark is collapsed, whatever the number of values)
+    PC = ["C11", "C01"]
+    u.emit("pub struct Expr;\nimpl Expr {\n")
+    EX = "src/expr.rs"
+    u.fn(EX, "impl Expr", "cust_with_values", ret="r", props=PC, key="Expr::cust_with_values",
+         rules=[make_r_sub("R-into", r"cust_with_values<T, V, I>\(s: T, v: I\)", "cust_with_values(s: String, v: Vec<Value>)"),
+                make_r_sub("R-into", r"where\s+T: Into<String>,\s+V: Into<Value>,\s+I: IntoIterator<Item = V>,", ""),
+                make_r_sub("R-into", r"s\.into\(\)", "s"),
+                make_r_sub("R-collect", r"v\.into_iter\(\)\s*\.map\(\|v\| Into::<Value>::into\(v\)\.into\(\)\)\s*\.collect\(\)", "vvalues_to_exprs(v)")],
+         spec="ensures r matches SimpleExpr::CustomWithExpr(t, es) && t == s && es@.len() == v@.len() && (forall|i: int| 0 <= i < v@.len() ==> #[trigger] es@[i] == SimpleExpr::Value(v@[i])),")
+    u.fn(EX, "impl Expr", "cust_with_expr", ret="r", props=PC, key="Expr::cust_with_expr",
+         rules=[make_r_sub("R-into", r"cust_with_expr<T, E>\(s: T, expr: E\)", "cust_with_expr(s: String, expr: SimpleExpr)"),
+                make_r_sub("R-into", r"where\s+T: Into<String>,\s+E: Into<SimpleExpr>,", ""), make_r_sub("R-into", r"s\.into\(\)", "s"), make_r_sub("R-into", r"expr\.into\(\)", "expr")],
+         spec="ensures r matches SimpleExpr::CustomWithExpr(t, es) && t == s && es@ == seq![expr],")
+    u.fn(EX, "impl Expr", "cust_with_exprs", ret="r", props=PC, key="Expr::cust_with_exprs",
+         rules=[make_r_sub("R-into", r"cust_with_exprs<T, I>\(s: T, v: I\)", "cust_with_exprs(s: String, v: Vec<SimpleExpr>)"),
+                make_r_sub("R-into", r"where\s+T: Into<String>,\s+I: IntoIterator<Item = SimpleExpr>,", ""), make_r_sub("R-into", r"s\.into\(\)", "s"),
+                make_r_sub("R-collect", r"v\.into_iter\(\)\.collect\(\)", "v")],
+         spec="ensures r == SimpleExpr::CustomWithExpr(s, v),")
+    u.emit("}\n")
     u.emit("pub struct AnyQB;\nimpl AnyQB {\n")
     u.spec(
         "    // ---- the dispatching entry point: INDUCTION HYPOTHESIS for every recursive call (verified per backend below) ----\n"
